@@ -14,11 +14,11 @@ type model struct {
 	Logs   map[string][]int32 `json:"logs"`   // list-like state (raftkvs PersistentLog)
 	InQ    map[string][]int32 `json:"inq"`    // offered to the archetype and not yet consumed by a committed section
 	OutQ   map[string][]int32 `json:"outq"`   // sent by committed sections and not yet taken at the far end
-	Stored map[string]int32   `json:"stored"` // durable copies (badger) of persistent cells, absent until first committed write
+	Stored map[string]string  `json:"stored"` // durable copies (badger) of persistent cells, absent until first committed write
 }
 
 func newModel() *model {
-	return &model{Cells: map[string]int32{}, Logs: map[string][]int32{}, InQ: map[string][]int32{}, OutQ: map[string][]int32{}, Stored: map[string]int32{}}
+	return &model{Cells: map[string]int32{}, Logs: map[string][]int32{}, InQ: map[string][]int32{}, OutQ: map[string][]int32{}, Stored: map[string]string{}}
 }
 
 func (m *model) clone() *model {
